@@ -430,6 +430,30 @@ def job_steps(job, cfg):
     return sum(len(w) for w in job["walks"].get(cfg, ()))
 
 
+def _mini(st):
+    """the part of a spec state the driver looks at (labels only)"""
+    return {"rows": st["rows"], "state": st["state"], "pos": st["pos"], "fam": st["fam"], "b": {"uniq": st["b"]["uniq"]},
+            "v": {"uniq": st["v"]["uniq"]}}
+
+
+def rerun(m):
+    """re-execute one recorded failing walk (a `replay` entry of replays/C10/*.json) -> None | (mismatch text, labels)"""
+    drv = Driver(m["impl"], m.get("uvals", ()))
+    try:
+        bad = drv.reset({"rows": m["rows"]})
+        if bad:
+            return bad, {}
+        for t in m["trace"]:
+            bad = drv.step(t["frm"], t["act"], None)
+            if bad:
+                return bad
+        if m.get("drain"):
+            return drv.finish(m["final"], m["drain"])
+        return None
+    finally:
+        drv.close()
+
+
 def _work(args):
     gid, impl, cfg = args
     job = _JOBS[gid]
@@ -442,7 +466,7 @@ def _work(args):
     for wi in idxs:
         walk = walks[wi]
         first = states[edges[walk[0]][0]]
-        hist = []
+        hist, trace = [], []
         m = drv.reset(first)
         if m:
             mism.append({"gid": gid, "impl": impl, "walk": [], "act": {"a": "reset", "h": "b", "arg": 0}, "mismatch": m, "labels": {},
@@ -452,6 +476,7 @@ def _work(args):
         for ei in walk:
             fk, act, tk = edges[ei]
             hist.append([act["a"], act["h"], act["arg"]])
+            trace.append({"act": act, "frm": _mini(states[fk])})
             steps += 1
             try:
                 bad = drv.step(states[fk], act, states[tk])
@@ -460,14 +485,16 @@ def _work(args):
                 bad = ("driver exception %r\n%s" % (e, traceback.format_exc()[-1200:]), {})
             if bad:
                 mism.append({"gid": gid, "impl": impl, "walk": list(hist), "act": {k: act[k] for k in ("a", "h", "arg")},
-                             "mismatch": bad[0], "labels": bad[1], "rows": first["rows"], "from": states[fk]})
+                             "mismatch": bad[0], "labels": bad[1], "rows": first["rows"], "from": states[fk], "trace": trace,
+                             "uvals": job["uvals"]})
                 break
         if not bad:
             last = edges[walk[-1]]
             bad = drv.finish(states[last[2]], last[1]["obs"])
             if bad:
                 mism.append({"gid": gid, "impl": impl, "walk": list(hist), "act": {"a": "drain", "h": "b", "arg": 0},
-                             "mismatch": bad[0], "labels": bad[1], "rows": first["rows"], "from": states[last[2]]})
+                             "mismatch": bad[0], "labels": bad[1], "rows": first["rows"], "from": states[last[2]], "trace": trace,
+                             "uvals": job["uvals"], "drain": last[1]["obs"], "final": _mini(states[last[2]])})
         if len(mism) > 300:
             break
     drv.close()
